@@ -316,6 +316,27 @@ func C17(tier rt.Tier) int {
 										violate("all", fmt.Sprintf("%s: GetAllMissingNodes = %s, %v; absent nodes reachable through present ones: %s", desc, hexSet(gotSet), err, hexSet(want)), replay)
 										return
 									}
+									// 1a. the same listing by a trie object that has already met some of the absent nodes in lookups (its
+									// record of missing keys is not empty when the scan starts), asked twice
+									{
+										tl := util.NewMerklePatriciaTrie(db, util.Sequence(tver), root, statecache.NewEmpty())
+										for i, p := range paths {
+											if i%2 == 0 {
+												_, _ = tl.GetNodeValueRaw(util.Path(p))
+											}
+										}
+										for round := 1; round <= 2; round++ {
+											got2, err2 := tl.GetAllMissingNodes()
+											gs2 := map[string]bool{}
+											for _, k := range got2 {
+												gs2[string(k)] = true
+											}
+											if err2 != nil || !sameSet(gs2, want) || len(got2) != len(gs2) {
+												violate("all-after-lookups", fmt.Sprintf("%s: GetAllMissingNodes (call %d) on a trie object that had already run into absent nodes in lookups = %s (%d keys), %v; absent nodes reachable through present ones: %s", desc, round, hexSet(gs2), len(got2), err2, hexSet(want)), replay)
+												return
+											}
+										}
+									}
 									// 1b. a full iteration (handler tolerating absent nodes) records every absent node it runs into
 									t2 = util.NewMerklePatriciaTrie(db, util.Sequence(tver), root, statecache.NewEmpty())
 									seenAbsent := map[string]bool{}
